@@ -50,6 +50,8 @@ const (
 	SCall    StepKind = iota // CALL(target, value)
 	SCreate                  // CREATE(value, init) [+ calls of the created account]
 	SCreate2                 // CREATE2(value, init, salt) [+ calls of the created account]
+	SStore                   // SSTORE(slot N, value V) with N in 0..3, V in {0, 0, 1, 2}
+	SBlockHash               // BLOCKHASH(NUMBER - N), N in 1..3, stored to slot 8+N (V=0) or logged as LOG0 data (V=1)
 )
 
 // Step is one straight-line action of a scenario contract.
@@ -62,6 +64,7 @@ type Step struct {
 	Benef  common.Address // beneficiary inside the child (BenefSelf: the child itself)
 	BSelf  bool
 	Salt   byte
+	N, V   byte // SStore: slot and value; SBlockHash: distance
 	// After a create: call the new account (runs its runtime: e.g. self-destructs it
 	// in the transaction that created it) and/or pay it afterwards.
 	CallChild bool
@@ -122,18 +125,26 @@ func DrawScenario(rt *rapid.T, push0 bool, pool []common.Address, asInit bool) *
 	n := 1 + pickW(rt, "sc-steps", []int{4, 4, 2, 1})
 	for i := 0; i < n; i++ {
 		var st Step
-		switch pickW(rt, "sc-kind", []int{5, 3, 1}) {
+		switch pickW(rt, "sc-kind", []int{10, 6, 2, 3, 2}) {
 		case 0:
 			st.Kind = SCall
 			st.Target, st.Self = drawAddr(rt, "sc-target", pool)
 			st.Value = drawValue(rt, "sc-value")
 		case 1:
 			st.Kind = SCreate
-		default:
+		case 2:
 			st.Kind = SCreate2
 			st.Salt = byte(ep.Uniform(rt, "sc-salt", 2))
+		case 3:
+			st.Kind = SStore
+			st.N = byte(ep.Uniform(rt, "sc-slot", 4))
+			st.V = []byte{0, 0, 1, 2}[ep.Uniform(rt, "sc-slot-value", 4)]
+		default:
+			st.Kind = SBlockHash
+			st.N = byte(1 + pickW(rt, "sc-blockhash-distance", []int{1, 2, 2}))
+			st.V = byte(ep.Uniform(rt, "sc-blockhash-sink", 2))
 		}
-		if st.Kind != SCall {
+		if st.Kind == SCreate || st.Kind == SCreate2 {
 			st.Value = drawValue(rt, "sc-endow")
 			st.Init = InitKind(pickW(rt, "sc-init", []int{5, 4, 2, 2, 1, 1, 1}))
 			st.Benef, st.BSelf = drawAddr(rt, "sc-benef", pool)
@@ -227,6 +238,15 @@ func (s *Scenario) Code() []byte {
 			emitAddr(a, st.Target, st.Self)
 			emitGas(a)
 			a.Op(ep.CALL, ep.POP)
+		case SStore:
+			a.PushU(uint64(st.V)).PushU(uint64(st.N)).Op(ep.SSTORE)
+		case SBlockHash:
+			a.PushU(uint64(st.N)).Op(ep.NUMBER, ep.SUB, ep.BLOCKHASH)
+			if st.V == 0 {
+				a.PushU(8 + uint64(st.N)).Op(ep.SSTORE)
+			} else { // LOG0 with the hash as data: gas and bloom do not depend on the value
+				a.PushU(0).Op(ep.MSTORE).PushU(32).PushU(0).Op(ep.LOG0)
+			}
 		default:
 			init := childInit(st, s.Push0)
 			if len(init) > 0 {
@@ -286,6 +306,10 @@ func (s *Scenario) Describe() string {
 		switch st.Kind {
 		case SCall:
 			parts = append(parts, fmt.Sprintf("call(%s,%s)", name(st.Target, st.Self), valueNames[st.Value]))
+		case SStore:
+			parts = append(parts, fmt.Sprintf("sstore(%d,%d)", st.N, st.V))
+		case SBlockHash:
+			parts = append(parts, fmt.Sprintf("blockhash(-%d)->%s", st.N, []string{"sstore", "log"}[st.V]))
 		default:
 			k := "create"
 			if st.Kind == SCreate2 {
@@ -311,7 +335,7 @@ func (s *Scenario) Describe() string {
 // Has reports structural features used for class labels.
 func (s *Scenario) Has() (selfdestruct, createValue, childDestruct bool) {
 	for _, st := range s.Steps {
-		if st.Kind != SCall {
+		if st.Kind == SCreate || st.Kind == SCreate2 {
 			if st.Value != VZero {
 				createValue = true
 			}
